@@ -50,7 +50,10 @@ func genC11b(t *rapid.T) c11bCase {
 func runC11b(c c11bCase, o *vfutil.Obs) *vfutil.Failure {
 	c02NATSOnce.Do(func() { c02NS = vfStartNATS() })
 	root, _ := os.MkdirTemp(scratchRoot(), "c11b")
-	defer os.RemoveAll(root)
+	// the directory stays until the driver removes the shard's scratch space: a
+	// straggling replication goroutine that writes after the case has ended
+	// would otherwise panic the process
+	_ = root
 	c02Seq++
 	w := &c02World{ns: c02NS, name: cursorsStream, nsName: fmt.Sprintf("c11b%d", c02Seq), nodes: map[string]*c02Node{}}
 	ids := []string{"a", "b", "c"}
